@@ -434,3 +434,5 @@ CLAIMS["C13"]["note"] += (" A frozen case is recognised from outside the bubble 
 CLAIMS["C20"]["text"] += (" The counter's reported State() is compared with the state the history implies after every event (no full window: Probing; full window with too few successes: Blocked; else Allowed), and the read-only expectations of the swarm-level part are computed from that history-derived state, not from the counter's own answer.")
 
 CLAIMS["C05"]["text"] += (" Two cases in seven run a swarm that lacks the TCP or the QUIC transport: addresses of the missing transport cannot be dialled (never handed to a transport), and a ws / webtransport address on the ip:port of such an address is then not shadowed and must be attempted.")
+
+CLAIMS["C03"]["text"] += (" A third of the sequential histories give the manager the library's own fixed limiter (NewFixedLimiter over a limit configuration built from the drawn table, with explicit per-protocol and per-service per-peer overrides) instead of the harness' table-driven Limiter, so the stock limit lookup is part of what is checked.")
